@@ -6,6 +6,10 @@ import Driver.Hist
 import Driver.Image
 import Driver.Cursor
 import Driver.Catalog
+import Driver.Backend
+import Driver.Latch
+import Driver.Recover
+import Driver.Storage
 /-! Line-protocol driver. First token of each line selects the model. -/
 open Redb.Driver
 
@@ -16,6 +20,8 @@ structure DState where
   hist : HistState := {}
   cur : CurState := {}
   cat : CatState := {}
+  stor : StState := {}
+  bk : BkState := {}
 
 def dispatch (st : DState) (line : String) : DState × String :=
   let (req, obs) := splitLine line
@@ -36,6 +42,12 @@ def dispatch (st : DState) (line : String) : DState × String :=
   | "cat" :: rest =>
     let (c, out) := catStep st.cat rest obs
     ({ st with cat := c }, out)
+  | "bk" :: rest =>
+    let (b, out) := bkStep st.bk rest obs
+    ({ st with bk := b }, out)
+  | "latch" :: rest => (st, latchStep rest)
+  | "crash" :: _ => (st, "skip")
+  | "fault" :: _ => (st, "skip")
   | "mm" :: rest =>
     let (t, out) := mmStep st.mm rest obs
     ({ st with mm := t }, out)
@@ -43,11 +55,24 @@ def dispatch (st : DState) (line : String) : DState × String :=
 
 partial def loop (h : IO.FS.Stream) (out : IO.FS.Stream) (st : DState) : IO Unit := do
   let line ← h.getLine
-  if line.isEmpty then return ()
+  if line.isEmpty then
+    -- answers of a storage stream (C01) still buffered at end of input
+    for o in stFinish st.stor do out.putStrLn o
+    return ()
   if line.trimAscii.toString.isEmpty || line.startsWith "#" then
     loop h out st
   else
     match (splitLine line).1 with
+    | "st" :: rest =>
+      -- recorded storage stream for the protocol monitor (C01), Driver/Storage.lean; `st image`
+      -- reads a file; answers are printed when the sync closing the epoch arrives
+      let (stor, outs) ← stStep st.stor rest
+      for o in outs do out.putStrLn o
+      loop h out { st with stor := stor }
+    | "img" :: "recover" :: rest =>
+      -- function correspondence of the recovery model (C01), Driver/Recover.lean
+      out.putStrLn (← recoverStep rest)
+      loop h out st
     | "img" :: rest =>
       -- the image checker reads a file, so it is handled here rather than in the pure `dispatch`
       out.putStrLn (← imgStep rest)
